@@ -59,6 +59,7 @@ type mon struct {
 
 	escrowAddr   string
 	panicExcused bool
+	stuckSampled bool
 
 	last  *obs
 	ethH  uint64
@@ -111,7 +112,6 @@ func run(cs fw.Case, tier string, rec *fw.Recorder) {
 	m.track(chain.ModuleAddr("paloma").String())
 	m.track(chain.GovAuthority())
 	m.last = m.observe()
-	rec.Sample(map[string]any{"params": p, "licensee_pool": len(m.pool), "denoms": m.denoms})
 
 	if p.GovReal {
 		m.opConfigReal()
@@ -138,6 +138,15 @@ func run(cs fw.Case, tier string, rec *fw.Recorder) {
 	if !m.dead && p.Hostile {
 		m.opHostileSale()
 	}
+	// a written-out excerpt for the evidence file: the first operations that had an effect
+	var excerpt []any
+	for _, h := range m.hist {
+		if o, isMap := h.(map[string]any); isMap && (o["result"] == "accepted" || o["op"] == "sale-claims") && len(excerpt) < 8 {
+			excerpt = append(excerpt, o)
+		}
+	}
+	rec.Sample(map[string]any{"params": p, "licensee_pool": len(m.pool), "denoms": m.denoms, "operations": len(m.hist), "open_licences_at_end": len(m.L.lic),
+		"activated_at_end": len(m.L.act), "excerpt": excerpt})
 	rec.Count("histories", 1)
 	rec.Count("blocks", m.c.Height)
 }
@@ -712,7 +721,10 @@ func (m *mon) opActivate() {
 			m.rec.Count("activation_without_licence_rejected", 1)
 		case "licence-under-non-canonical-key":
 			m.rec.Count("activation_stuck_non_canonical_key", 1)
-			m.rec.Sample(map[string]any{"observation": "a licence created for an upper-case bech32 spelling cannot be activated by its owner (outside C18: the coins stay escrowed)", "op": op})
+			if !m.stuckSampled {
+				m.stuckSampled = true
+				m.rec.Sample(map[string]any{"observation": "a licence created for an upper-case bech32 spelling cannot be activated by its owner (outside C18: the coins stay escrowed)", "op": op})
+			}
 		}
 		if class == shouldSucceed {
 			m.unexpectedReject(op, res.Log)
